@@ -14,7 +14,7 @@ The functions mirror the C statement by statement:
 * `checkName`   = `tls_check_name`
 * `handshakeRc` = the tail of `tls_handshake_client` (with repair F18: every non-zero
                   result of the name check is reported as -1, never as -2 = TLS_WANT_POLLIN)
-* `inetPton4/6` = `usual/socket_pton.c`; the flag `strict` adds the one extra rule of
+* `inetPton4/6` = `usual/socket_pton.c` (after repair F42: an IPv4 field has 1..3 digits); the flag `strict` adds the one extra rule of
                   glibc ≥ 2.26 (`01.2.3.4` is refused: no leading zero in an octet), which is
                   the `inet_pton` actually linked on this platform (`HAVE_INET_PTON`).
 
@@ -190,23 +190,26 @@ def runCalls (r : Res) : Client → List Call → List (Bool × String)
 
 /-! ## inet_pton (usual/socket_pton.c; `strict` = glibc's extra leading-zero rule) -/
 
-/-- `inet_pton4` loop. `done` = finished octets (reversed), `cur` = `*tp` -/
-def pton4Loop (strict : Bool) : Str → Bool → Nat → List UInt8 → Nat → Option Str
+/-- `inet_pton4` loop. `done` = finished octets (reversed), `cur` = `*tp`, `nd` = `saw_digit`
+    (number of digits of the current field, 0 = none yet).  A field has one to three digits
+    (repair F42 of the compat function; the platform function never accepted more: a fourth
+    digit means a leading zero or a value above 255). -/
+def pton4Loop (strict : Bool) : Str → Nat → Nat → List UInt8 → Nat → Option Str
   | [], _, octets, done, cur =>
     if octets < 4 then none else some ((UInt8.ofNat cur :: done).reverse)
-  | ch :: rest, saw, octets, done, cur =>
+  | ch :: rest, nd, octets, done, cur =>
     if 48 ≤ ch ∧ ch ≤ 57 then
       let new := cur * 10 + (ch.toNat - 48)
-      if strict ∧ saw ∧ cur = 0 then none
+      if strict ∧ nd > 0 ∧ cur = 0 then none
       else if new > 255 then none
-      else if !saw then
-        (if octets + 1 > 4 then none else pton4Loop strict rest true (octets + 1) done new)
-      else pton4Loop strict rest true octets done new
-    else if ch = DOT ∧ saw then
-      if octets = 4 then none else pton4Loop strict rest false octets (UInt8.ofNat cur :: done) 0
+      else if nd = 0 ∧ octets + 1 > 4 then none
+      else if nd + 1 > 3 then none                         -- "ddd": one to three digits
+      else pton4Loop strict rest (nd + 1) (if nd = 0 then octets + 1 else octets) done new
+    else if ch = DOT ∧ nd > 0 then
+      if octets = 4 then none else pton4Loop strict rest 0 octets (UInt8.ofNat cur :: done) 0
     else none
 
-def inetPton4 (strict : Bool) (src : Str) : Option Str := pton4Loop strict src false 0 [] 0
+def inetPton4 (strict : Bool) (src : Str) : Option Str := pton4Loop strict src 0 0 [] 0
 
 def hexDigitVal (c : UInt8) : Option Nat :=
   if 48 ≤ c ∧ c ≤ 57 then some (c.toNat - 48)
